@@ -2,7 +2,8 @@ import SqlObjVerif.Model.Events
 import SqlObjVerif.Model.DrvUtil
 /-! Driver for C19.  One case (class configuration + whole history) per line.
 
-Plain class:  `P <lazy 0|1> <ncols> <defaults v,v,..> | <listener>* | <op> ; <op> ; …`
+Plain class:  `P <lazy 0|1> <ncols> <defaults v,v,..> | <listener>* | <op> ; <op> ; … [| <listener of class B>*]`
+  (act `x` = the listener creates a row of class B; callbacks `p.<n>` with n ≥ 1000 do so when run; B entries are prefixed `b:`)
   value `i<int>` / `n` / `b`;  kwargs `k=v,k=v` or `-`;  listener `<sig>:<act>` with sig in
   c C u U d D (create created update updated destroy destroyed) and act `o`, `s.<k>.<v>`, `d.<k>`, `p.<p>`;
   ops `C kw`, `A h k v`, `S h kw`, `Y h` (syncUpdate), `N h` (sync), `D h`, `F h`, `L`.
@@ -41,6 +42,7 @@ def act? (s : String) : Option Act :=
     | _, _ => none
   | ["d", k] => (k.toNat?).map Act.delKey
   | ["p", p] => (p.toNat?).map Act.post
+  | ["x"] => some .spawn
   | _ => none
 
 def listener? (s : String) : Option Listener :=
@@ -126,17 +128,25 @@ def showCEntry : Chain.CEntry → String
   | .ins level id => "I" ++ toString level ++ "@" ++ toString id
   | .post p level id => "p" ++ toString p ++ "." ++ toString level ++ "@" ++ toString id
 
-def runShow (c : Cfg) : State → List Op → List String
-  | _, [] => []
-  | s, op :: ops =>
-    let q := step c s op
-    (showOut q.2.2 ++ " " ++ (if q.2.1.isEmpty then "-" else " ".intercalate (q.2.1.map showEntry))
-      ++ " # " ++ showTable q.1.rows) :: runShow c q.1 ops
+def showXEntry : XEntry → String
+  | .a e => showEntry e
+  | .b e => "b:" ++ showEntry e
+
+def runShow (c : Cfg) (LB : List Listener) : State → Nat → List Op → List String
+  | _, _, [] => []
+  | s, nB, op :: ops =>
+    let q := stepX c LB s nB op
+    (showOut q.1.2.2 ++ " " ++ (if q.1.2.1.isEmpty then "-" else " ".intercalate (q.1.2.1.map showXEntry))
+      ++ " # " ++ showTable q.1.1.rows ++ " # b" ++ toString (q.2 - 1)) :: runShow c LB q.1.1 q.2 ops
 
 def sections (line : String) : List String := (line.splitOn "|").map fun s => s.trimAscii.toString
 
 def handle (line : String) : String :=
-  match sections line with
+  let secs := sections line
+  let lb : Option (List Listener) := match secs with
+    | [_, _, _, lb] => allSome ((words lb).map listener?)
+    | _ => some []
+  match secs.take 3 with
   | [hd, ls, ops] =>
     match words hd with
     | ["P", lz, n, dfl] =>
@@ -144,11 +154,11 @@ def handle (line : String) : String :=
       let ls := allSome ((words ls).map listener?)
       let ops := if ops.isEmpty then some [] else
         allSome ((ops.splitOn ";").map fun s => op? s.trimAscii.toString)
-      match n.toNat?, dfl, ls, ops with
-      | some n, some dfl, some ls, some ops =>
+      match n.toNat?, dfl, ls, ops, lb with
+      | some n, some dfl, some ls, some ops, some lb =>
         let c : Cfg := { ncols := n, lazy := lz == "1", defaults := dfl, listeners := ls }
-        " ; ".intercalate (runShow c init ops)
-      | _, _, _, _ => "bad-case"
+        " ; ".intercalate (runShow c lb init 1 ops)
+      | _, _, _, _, _ => "bad-case"
     | ["H"] =>
       let levels := (ls.splitOn "/").map fun s => allSome ((words s).map clistener?)
       let lv := allSome ((words ops).map String.toNat?)
